@@ -21,7 +21,8 @@
   * `negative_zero_not_recovered`    why 1's-complement 0xFF is excluded
   * `gen_*_eq`            the model's expressions ARE the expressions translated from today's source
     (`Gen.SensorExpr`): `gen_signedRaw_eq`, `gen_arg_eq`, `gen_convert_eq`, `gen_rawQ_eq`,
-    `gen_encodeSigned_eq`, `gen_valueToRaw_eq`, `gen_convertComplement_eq`
+    `gen_encodeSigned_eq`, `gen_valueToRaw_eq`, `gen_convertComplement_eq`; `gen_inputs` (which variable each
+    expression reads: the `if … < 0` of the negative encodings tests the rounded raw number), `gen_guards`
   * `gen_signed_spec`, `gen_forward_argument`, `gen_inverse_roundtrip`   the property theorems restated
     for the generated definitions
   * `inverse_asShipped_counterexample`, `inverse_formula_counterexample`,
@@ -203,6 +204,30 @@ theorem gen_inverse_roundtrip (fmt raw : Nat) (m b k1 k2 : Int) (hraw : raw < 25
   refine ⟨?_, by rw [hr, he]⟩
   simp only [Gen.SensorExpr.inv_guard_2, hr, he, decide_eq_false_iff_not]
   omega
+
+/-- Which variables every generated definition reads, as the source writes them.  In particular the
+negative encodings and the `> 0xff` guard (`inv_raw_2`, `inv_guard_2`) test the ROUNDED RAW number
+(`int(round(raw))`) and the analog data format — not `value` —, and the inverse formula reads
+`value`, K2, B, K1, M.  (Binder names are invisible to the other `gen_*` theorems; this table is not.) -/
+theorem gen_inputs :
+    Gen.SensorExpr.inputs =
+      [("cc_value", ["value", "size"]),
+       ("convertComplement", ["value", "size"]),
+       ("fwd_raw_1", ["self.analog_data_format", "raw"]),
+       ("fwd_raw_2", ["self.analog_data_format", "raw"]),
+       ("fwd_lin_arg", ["self.m", "self.analog_data_format", "raw", "self.b", "self.k1", "self.k2"]),
+       ("inv_linearization", ["self.linearization"]),
+       ("inv_guard_1", ["self.linearization"]),
+       ("inv_raw_1", ["value", "self.k2", "self.b", "self.k1", "self.m"]),
+       ("inv_raw_2", ["self.analog_data_format", "int(round(raw))"]),
+       ("inv_guard_2", ["self.analog_data_format", "int(round(raw))"])] := rfl
+
+/-- The forward conversion starts with `if raw is None: return None`; the two guards of the inverse
+raise the exceptions the model raises. -/
+theorem gen_guards :
+    Gen.SensorExpr.fwd_none_guard = true ∧ Gen.SensorExpr.inv_guard_1_exc = "NotImplementedError" ∧
+    Gen.SensorExpr.inv_guard_2_exc = "ValueError" ∧ Gen.SensorExpr.inv_raw_round_of = "inv_raw_1" :=
+  ⟨rfl, rfl, rfl, rfl⟩
 
 /-! ### the pinned code (as shipped) violates the property -/
 
